@@ -2,7 +2,10 @@ use std::collections::HashMap;
 use std::collections::hash_map::Entry;
 use std::fmt::Debug;
 use std::hash::Hash;
+#[cfg(not(rescrv_blue_verif_shuttle))]
 use std::sync::Mutex;
+#[cfg(rescrv_blue_verif_shuttle)]
+use shuttle::sync::Mutex;
 
 #[derive(Debug, Default)]
 pub struct ReferenceCounter<T: Eq + Hash> {
